@@ -56,8 +56,14 @@ LimitVerdict(c, v) ==
        ELSE IF v.outcome \in {"eval_err", "panic"} THEN "EVAL_FAILURE"
        ELSE "fine"
 
+\* Incremental evaluation (family "incr": the base facts arrive in two batches, EvalProgram runs after
+\* each, see SemiNaive!Resume and T01i): the final store is the model of all base facts for positive
+\* programs; with negation or aggregation earlier conclusions may be stale and nothing is claimed.
+IsIncr(c) == "family" \in DOMAIN c /\ c.family = "incr"
+PositiveProg(c) == \A r \in RulesOf(c) : ~IsDo(r) /\ \A i \in DOMAIN r.b : r.b[i][1] # "neg"
 Verdict(c, v) ==
   IF AnyAmbiguous(c) THEN "fine" ELSE
+  IF IsIncr(c) /\ ~PositiveProg(c) THEN "fine" ELSE
   IF HasLimit(c) THEN LimitVerdict(c, v) ELSE
   IF ~AllSafe(c) THEN (IF v.outcome = "ok" THEN "ACCEPTED_UNSAFE" ELSE "fine")
   ELSE IF ~Stratifiable(RulesOf(c)) THEN (IF v.outcome = "ok" THEN "ACCEPTED_UNSTRATIFIABLE" ELSE "fine")
@@ -67,7 +73,7 @@ Verdict(c, v) ==
          [] v.outcome \in {"eval_err", "panic"} -> "EVAL_FAILURE"
          [] OTHER -> "fine"
 
-Class(c) == IF AnyAmbiguous(c) THEN "ambiguous" ELSE IF HasLimit(c) THEN (IF ~AllSafe(c) THEN "unsafe" ELSE IF ~Stratifiable(RulesOf(c)) THEN "unstrat"
+Class(c) == IF AnyAmbiguous(c) THEN "ambiguous" ELSE IF IsIncr(c) /\ ~PositiveProg(c) THEN "nonmonotone" ELSE IF HasLimit(c) THEN (IF ~AllSafe(c) THEN "unsafe" ELSE IF ~Stratifiable(RulesOf(c)) THEN "unstrat"
                                  ELSE IF Converged(c) THEN "finite" ELSE "diverging") ELSE
             IF ~AllSafe(c) THEN "unsafe" ELSE IF ~Stratifiable(RulesOf(c)) THEN "unstrat"
             ELSE IF HasErr(RulesOf(c), Expected(c)) THEN "typeerr" ELSE "model"
